@@ -3,8 +3,8 @@ import random
 from vlib import core, corr
 
 AREA = "C06"
-MODULES = ["TinsModel.Props.C06"]
-AUDIT = "Audit/C06.lean"
+MODULES = ["TinsModel.Props.C06", "TinsModel.Props.Limits.C06"]   # + the constants / limits tied to the source (translator/gen_limits.py)
+AUDIT = ["Audit/C06.lean", "Audit/LimitsC06.lean"]
 LEVEL = "proof"
 MANIFEST = dict(
     text="Lean 4 theorems over code-shaped executable models of DataTracker::process_payload/advance_sequence, "
@@ -19,6 +19,10 @@ MANIFEST = dict(
          "and the delivered payload are compared through length + FNV-1a 64.",
     technique="Lean 4 proof (invariant + simulation/refinement over arrival histories) + model/impl correspondence",
     design="DESIGN.md §6 C06")
+MANIFEST["note"] += (" Constants and limits of the C++ source that the model restates (translator/gen_limits.py -> Gen/Limits.lean: "
+                     "compiled probe + preprocessed function bodies at named anchors) are tied to the model's numerals by the "
+                     "theorems of lean/TinsModel/Props/Limits/C06.lean (audit: Audit/LimitsC06.lean); tools/LIMITS-INVENTORY.md lists "
+                     "what is tied and what is not.")
 
 BOUNDARY_ISNS = [0, 1, 2**31 - 1, 2**31, 2**32 - 1] + [2**32 - k for k in range(2, 26)]
 
@@ -198,7 +202,12 @@ def build_all():
 
 
 def run(chk):
+    from translator import gen_limits
+    gen_limits.main([])          # Gen/Limits.lean: constants and limits read from the current source
+    chk.trusted.append("translator/gen_limits.py (constants / limits of the source -> Gen/Limits.lean: compiled probe + "
+                       "preprocessed function bodies at named anchors; tied to the model numerals by Props/Limits/C06.lean)")
     problems = chk.prove(MODULES, AUDIT, want_leanchecker=(chk.tier == "thorough"))
+    problems = gen_limits.name_failures(chk, problems, "C06")   # name the tie theorems that fail
     exes, err = build_all()
     if exes is None:
         chk.violation("implementation does not build: " + err[-1500:], ["build-error"], nofail=True)
